@@ -1,2 +1,838 @@
-import Cctz.Model.Civil
-import Cctz.Spec.Gregorian
+import Cctz.Proofs.Calendar
+namespace Cctz
+open Cctz.Spec
+
+/-! `Ck.bindv` is a `rfl`-lemma: `simp` then leaves a definitional-equality check to the kernel,
+which compares the (large, different) arguments of `Ck.val` first and can take minutes on the
+`n_sec` … `n_day` call chain.  The copies below are ordinary rewrite lemmas. -/
+theorem Ck.bindv (x : Ck α) (f : α → Ck β) : (x >>= f).val = (f x.val).val := by
+  cases x; rfl
+theorem Ck.bindv' (x : Ck α) (f : α → Ck β) : (x.bind' f).val = (f x.val).val := by
+  cases x; rfl
+@[simp] theorem Ck.bind'_ok (x : Ck α) (f : α → Ck β) : (x.bind' f).ok ↔ x.ok ∧ (f x.val).ok :=
+  Ck.bind_ok x f
+
+/-- the "leap index" offset of `year_index`/`days_per_year` -/
+local notation "lix(" m ")" => b2i (decide (m > 2))
+
+/-- what one of the chunk loops of `n_day` guarantees about its result `r = (ey', d', yi')` -/
+structure ChunkSpec (m ey d : Int) (r : Int × Int × Int) : Prop where
+  day : dayNum r.1 m r.2.1 = dayNum ey m d
+  idx : r.2.2 = (r.1 + lix(m)) % 400
+  lo : ey ≤ r.1
+  hi : r.1 + r.2.1 ≤ ey + d
+  pos : 0 < d → 0 < r.2.1
+  le : r.2.1 ≤ d
+
+theorem centuryLoop_spec (m ey d yi : Int) (hyi : yi = (ey + lix(m)) % 400) :
+    ChunkSpec m ey d (Civil.centuryLoop ey d yi).val := by
+  fun_induction Civil.centuryLoop ey d yi with
+  | case1 ey d yi n h => exact ⟨rfl, hyi, Int.le_refl _, Int.le_refl _, id, Int.le_refl _⟩
+  | case2 ey d yi n h ih =>
+    simp only [Ck.bindv', chk64_val]
+    have hn : 36524 ≤ n := Civil.daysPerCentury_pos yi
+    have hstep := dayNum_add_century ey m (d - n)
+    have hlin := dayNum_linear ey m (d - n) n
+    simp only [dite_eq_ite] at ih
+    have ih := ih (ey + 100) (by omega)
+    subst hyi
+    rw [show d - n + n = d by omega] at hlin
+    exact ⟨by rw [ih.day, hstep, hlin], ih.idx, by have := ih.lo; omega, by have := ih.hi; omega,
+      fun _ => ih.pos (by omega), by have := ih.le; omega⟩
+
+theorem fourLoop_spec (m ey d yi : Int) (hyi : yi = (ey + lix(m)) % 400) :
+    ChunkSpec m ey d (Civil.fourLoop ey d yi).val := by
+  fun_induction Civil.fourLoop ey d yi with
+  | case1 ey d yi n h => exact ⟨rfl, hyi, Int.le_refl _, Int.le_refl _, id, Int.le_refl _⟩
+  | case2 ey d yi n h ih =>
+    simp only [Ck.bindv', chk64_val]
+    have hn : 1460 ≤ n := Civil.daysPer4Years_pos yi
+    have hstep := dayNum_add_4years ey m (d - n)
+    have hlin := dayNum_linear ey m (d - n) n
+    simp only [dite_eq_ite] at ih
+    have ih := ih (ey + 4) (by omega)
+    subst hyi
+    rw [show d - n + n = d by omega] at hlin
+    exact ⟨by rw [ih.day, hstep, hlin], ih.idx, by have := ih.lo; omega, by have := ih.hi; omega,
+      fun _ => ih.pos (by omega), by have := ih.le; omega⟩
+
+/-- what the one-year loop guarantees about its result `r = (ey', d')` -/
+structure YearSpec (m ey d : Int) (r : Int × Int) : Prop where
+  day : dayNum r.1 m r.2 = dayNum ey m d
+  lo : ey ≤ r.1
+  hi : r.1 + r.2 ≤ ey + d
+  pos : 0 < d → 0 < r.2
+  top : r.2 ≤ (Civil.daysPerYear r.1 m).val
+  le : r.2 ≤ d
+
+theorem yearLoop_spec (m ey d : Int) : YearSpec m ey d (Civil.yearLoop m ey d).val := by
+  fun_induction Civil.yearLoop m ey d with
+  | case1 ey d h => exact ⟨rfl, Int.le_refl _, Int.le_refl _, id, h, Int.le_refl _⟩
+  | case2 ey d h ih =>
+    simp only [Ck.bindv', chk64_val]
+    have hn := Civil.daysPerYear_pos ey m
+    have hstep := dayNum_add_year ey m (d - (Civil.daysPerYear ey m).val)
+    have hlin := dayNum_linear ey m (d - (Civil.daysPerYear ey m).val) (Civil.daysPerYear ey m).val
+    have ih := ih (ey + 1)
+    rw [show d - (Civil.daysPerYear ey m).val + (Civil.daysPerYear ey m).val = d by omega] at hlin
+    exact ⟨by rw [ih.day, hstep, hlin], by have := ih.lo; omega, by have := ih.hi; omega,
+      fun _ => ih.pos (by omega), ih.top, by have := ih.le; omega⟩
+
+/-- what the month loop guarantees about its result `r = (ey', m', d')` -/
+structure MonthSpec (ey m d : Int) (r : Int × Int × Int) : Prop where
+  day : dayNum r.1 r.2.1 r.2.2 = dayNum ey m d
+  m_lo : 1 ≤ r.2.1
+  m_hi : r.2.1 ≤ 12
+  pos : 0 < d → 0 < r.2.2
+  top : r.2.2 ≤ daysInMonth r.1 r.2.1
+  lo : ey ≤ r.1
+  hi : 28 * (12 * (r.1 - ey) + (r.2.1 - m)) ≤ d - r.2.2
+
+theorem monthLoop_spec (ey m d : Int) (h1 : 1 ≤ m) (h2 : m ≤ 12) :
+    MonthSpec ey m d (Civil.monthLoop ey m d).val := by
+  fun_induction Civil.monthLoop ey m d with
+  | case1 ey m d h =>
+    rw [daysPerMonth_val ey m h1 h2] at h
+    exact ⟨rfl, h1, h2, id, h, Int.le_refl _, by simp [Ck.bindv']⟩
+  | case2 ey m d h hn =>
+    rw [daysPerMonth_val ey m h1 h2] at hn
+    have := daysInMonth_pos ey m; omega
+  | case3 ey m d h hn ih1 ih2 =>
+    simp only [Ck.bindv']
+    rw [daysPerMonth_val ey m h1 h2] at h ih1 ih2 ⊢
+    have hp := daysInMonth_pos ey m
+    have hlin := dayNum_linear ey m (d - daysInMonth ey m) (daysInMonth ey m)
+    rw [show d - daysInMonth ey m + daysInMonth ey m = d by omega] at hlin
+    by_cases hm : m + 1 > 12
+    · simp only [hm, if_true, Ck.bindv', chk64_val]
+      have hm12 : m = 12 := by omega
+      subst hm12
+      have ih := ih1 (ey + 1) (by omega) (by omega)
+      have hstep := dayNum_add_month_dec ey (d - daysInMonth ey 12)
+      exact ⟨by rw [ih.day, hstep, hlin], ih.m_lo, ih.m_hi, fun _ => ih.pos (by omega), ih.top,
+        by have := ih.lo; omega, by have := ih.hi; have := ih.lo; omega⟩
+    · simp only [hm, if_false]
+      have ih := ih2 (by omega) (by omega)
+      have hstep := dayNum_add_month ey m (d - daysInMonth ey m) h1 (by omega)
+      exact ⟨by rw [ih.day, hstep, hlin], ih.m_lo, ih.m_hi, fun _ => ih.pos (by omega), ih.top,
+        by have := ih.lo; omega, by have := ih.hi; have := ih.lo; omega⟩
+
+/-! ### the loops raise no flag -/
+
+theorem daysPerYear_ok (ey m : Int) : (Civil.daysPerYear ey m).ok ↔ inI64 (ey + lix(m)) := by
+  simp only [Civil.daysPerYear, Ck.bind_ok, chk64_ok, Ck.pure_ok, and_true]
+
+theorem yearIndex_ok (ey m : Int) : (Civil.yearIndex ey m).ok ↔ inI64 (ey + lix(m)) := by
+  simp only [Civil.yearIndex, Ck.bind_ok, chk64_ok, Ck.pure_ok, and_true]
+
+theorem daysPerMonth_ok (ey m : Int) (h1 : 1 ≤ m) (h2 : m ≤ 12) : (Civil.daysPerMonth ey m).ok := by
+  simp only [Civil.daysPerMonth, Ck.bind_ok, Ck.pure_ok, and_true, getC_ok, Gen.kDaysPerMonth,
+    List.length_cons, List.length_nil]
+  omega
+
+theorem lix_range (m : Int) : 0 ≤ lix(m) ∧ lix(m) ≤ 1 := by
+  simp only [b2i]; split <;> omega
+
+theorem centuryLoop_ok (ey d yi : Int) (hey : i64min ≤ ey) (hd : 0 < d) (hd2 : d ≤ i64max)
+    (hs : ey + d ≤ i64max) : (Civil.centuryLoop ey d yi).ok := by
+  fun_induction Civil.centuryLoop ey d yi with
+  | case1 ey d yi n h => exact Ck.pure_ok _
+  | case2 ey d yi n h ih =>
+    have hn : 36524 ≤ n := Civil.daysPerCentury_pos yi
+    simp only [Ck.bind'_ok, chk64_ok, chk64_val, inI64]
+    simp only [i64min, i64max] at *
+    exact ⟨by omega, by omega, ih (ey + 100) (by omega) (by omega) (by omega) (by omega)⟩
+
+theorem fourLoop_ok (ey d yi : Int) (hey : i64min ≤ ey) (hd : 0 < d) (hd2 : d ≤ i64max)
+    (hs : ey + d ≤ i64max) : (Civil.fourLoop ey d yi).ok := by
+  fun_induction Civil.fourLoop ey d yi with
+  | case1 ey d yi n h => exact Ck.pure_ok _
+  | case2 ey d yi n h ih =>
+    have hn : 1460 ≤ n := Civil.daysPer4Years_pos yi
+    simp only [Ck.bind'_ok, chk64_ok, chk64_val, inI64]
+    simp only [i64min, i64max] at *
+    exact ⟨by omega, by omega, ih (ey + 4) (by omega) (by omega) (by omega) (by omega)⟩
+
+theorem yearLoop_ok (m ey d : Int) (hey : i64min ≤ ey) (hd : 0 < d) (hd2 : d ≤ i64max)
+    (hs : ey + d ≤ i64max) : (Civil.yearLoop m ey d).ok := by
+  fun_induction Civil.yearLoop m ey d with
+  | case1 ey d h =>
+    have := lix_range m
+    simp only [Ck.bind'_ok, daysPerYear_ok, Ck.pure_ok, and_true, inI64]
+    simp only [i64min, i64max] at *
+    omega
+  | case2 ey d h ih =>
+    have hn := Civil.daysPerYear_pos ey m
+    have := lix_range m
+    have hc := daysPerYear_val ey m
+    have := daysInYear_cases (ey + lix(m))
+    simp only [Ck.bind'_ok, chk64_ok, chk64_val, daysPerYear_ok, inI64]
+    simp only [i64min, i64max] at *
+    exact ⟨by omega, by omega, by omega, ih (ey + 1) (by omega) (by omega) (by omega) (by omega)⟩
+
+theorem monthLoop_ok (ey m d : Int) (h1 : 1 ≤ m) (h2 : m ≤ 12) (hey : i64min ≤ ey) (hd : 0 < d)
+    (hd2 : d ≤ i64max) (hs : ey + d ≤ i64max) : (Civil.monthLoop ey m d).ok := by
+  fun_induction Civil.monthLoop ey m d with
+  | case1 ey m d h =>
+    simp only [Ck.bind'_ok, daysPerMonth_ok ey m h1 h2, Ck.pure_ok, and_true]
+  | case2 ey m d h hn =>
+    rw [daysPerMonth_val ey m h1 h2] at hn
+    have := daysInMonth_pos ey m; omega
+  | case3 ey m d h hn ih1 ih2 =>
+    rw [daysPerMonth_val ey m h1 h2] at h ih1 ih2 ⊢
+    have hp := daysInMonth_pos ey m
+    simp only [Ck.bind'_ok, daysPerMonth_ok ey m h1 h2, true_and, chk64_ok,
+      daysPerMonth_val ey m h1 h2, inI64]
+    simp only [i64min, i64max] at *
+    refine ⟨by omega, ?_⟩
+    by_cases hm : m + 1 > 12
+    · simp only [hm, if_true, Ck.bind'_ok, chk64_ok, chk64_val, inI64, i64min, i64max]
+      exact ⟨by omega, ih1 (ey + 1) (by omega) (by omega) (by omega) (by omega) (by omega) (by omega)⟩
+    · simp only [hm, if_false]
+      exact ih2 (by omega) (by omega) (by omega) (by omega) (by omega) (by omega)
+
+/-! ## `n_day` cut into phases -/
+
+namespace NDay
+
+/-- bring the carried days `cd % 146097` into `[0, 146097)` -/
+def redCd (ey1 cd1 : Int) : Ck (Int × Int) :=
+  if cd1 < 0 then do
+    let e ← chk64 (ey1 - 400); let c ← chk64 (cd1 + 146097); pure (e, c)
+  else pure (ey1, cd1)
+
+/-- bring the day `d % 146097 + cd` into `[1, 146097]` -/
+def redD (ey3 d1 m : Int) : Ck (Int × Int) :=
+  if d1 > 0 then
+    (if d1 > 146097 then do
+        let e ← chk64 (ey3 + 400); let c ← chk64 (d1 - 146097); pure (e, c)
+      else pure (ey3, d1))
+  else
+    (if d1 > -365 then do
+        let e ← chk64 (ey3 - 1)
+        let n ← Civil.daysPerYear e m
+        let c ← chk64 (d1 + n)
+        pure (e, c)
+      else do
+        let e ← chk64 (ey3 - 400); let c ← chk64 (d1 + 146097); pure (e, c))
+
+/-- the 100/4/1-year chunk loops -/
+def yearChunks (ey4 d2 m : Int) : Ck (Int × Int) :=
+  if d2 > 365 then do
+    let yi ← Civil.yearIndex ey4 m
+    let c ← Civil.centuryLoop ey4 d2 yi
+    let f ← Civil.fourLoop c.1 c.2.1 c.2.2
+    Civil.yearLoop m f.1 f.2.1
+  else pure (ey4, d2)
+
+def monthChunk (ey5 m d3 : Int) : Ck (Int × Int × Int) :=
+  if d3 > 28 then Civil.monthLoop ey5 m d3 else pure (ey5, m, d3)
+
+theorem nDay_eq (y m d cd hh mm ss : Int) :
+    Civil.nDay y m d cd hh mm ss = (do
+      let t ← chk64 (cdiv cd 146097 * 400)
+      let ey1 ← chk64 (cmod y 400 + t)
+      let p ← redCd ey1 (cmod cd 146097)
+      let t2 ← chk64 (cdiv d 146097 * 400)
+      let ey3 ← chk64 (p.1 + t2)
+      let d1 ← chk64 (cmod d 146097 + p.2)
+      let q ← redD ey3 d1 m
+      let r ← yearChunks q.1 q.2 m
+      let s ← monthChunk r.1 m r.2
+      let dy ← chk64 (s.1 - cmod y 400)
+      let yy ← chk64 (y + dy)
+      pure ⟨yy, s.2.1, s.2.2, hh, mm, ss⟩) := rfl
+
+
+/-! ### values of the phases -/
+
+theorem redCd_val (e cd : Int) :
+    (redCd (e + cdiv cd 146097 * 400) (cmod cd 146097)).val =
+      (e + 400 * (cd / 146097), cd % 146097) := by
+  by_cases h : cmod cd 146097 < 0 <;>
+    simp only [redCd, h, if_true, if_false, Ck.bindv, chk64_val, Ck.pure_val, Prod.mk.injEq] <;>
+    simp only [cdiv_pos_lit _ 146097 (by decide), cmod_pos_lit _ 146097 (by decide)] at h ⊢ <;>
+    omega
+
+theorem redD_spec (ey3 d1 m : Int) (h1 : -146097 < d1) (h2 : d1 ≤ 2 * 146097) :
+    dayNum (redD ey3 d1 m).val.1 m (redD ey3 d1 m).val.2 = dayNum ey3 m d1 ∧
+    1 ≤ (redD ey3 d1 m).val.2 ∧ (redD ey3 d1 m).val.2 ≤ 146097 ∧
+    ey3 - 400 ≤ (redD ey3 d1 m).val.1 ∧ (redD ey3 d1 m).val.1 ≤ ey3 + 400 := by
+  unfold redD
+  split
+  · split
+    · simp only [Ck.bindv, chk64_val, Ck.pure_val]
+      have := dayNum_add_400 ey3 m (d1 - 146097)
+      have := dayNum_linear ey3 m (d1 - 146097) 146097
+      rw [show d1 - 146097 + 146097 = d1 by omega] at this
+      refine ⟨?_, ?_, ?_, ?_, ?_⟩ <;> omega
+    · refine ⟨rfl, ?_, ?_, ?_, ?_⟩ <;> simp only [Ck.pure_val] <;> omega
+  · split
+    · simp only [Ck.bindv, chk64_val, Ck.pure_val]
+      have h := dayNum_add_year (ey3 - 1) m d1
+      rw [show ey3 - 1 + 1 = ey3 by omega] at h
+      have := dayNum_linear (ey3 - 1) m d1 (Civil.daysPerYear (ey3 - 1) m).val
+      have := Civil.daysPerYear_pos (ey3 - 1) m
+      have hc := daysPerYear_val (ey3 - 1) m
+      have := daysInYear_cases (ey3 - 1 + lix(m))
+      refine ⟨?_, ?_, ?_, ?_, ?_⟩ <;> omega
+    · simp only [Ck.bindv, chk64_val, Ck.pure_val]
+      have := dayNum_sub_400 ey3 m (d1 + 146097)
+      have := dayNum_linear ey3 m d1 146097
+      refine ⟨?_, ?_, ?_, ?_, ?_⟩ <;> omega
+
+theorem yearChunks_spec (ey4 d2 m : Int) :
+    YearSpec m ey4 d2 (yearChunks ey4 d2 m).val ∨
+      (d2 ≤ 365 ∧ (yearChunks ey4 d2 m).val = (ey4, d2)) := by
+  unfold yearChunks
+  split
+  · left
+    simp only [Ck.bindv]
+    have hc := centuryLoop_spec m ey4 d2 _ (yearIndex_val ey4 m)
+    generalize (Civil.centuryLoop ey4 d2 (Civil.yearIndex ey4 m).val).val = c at hc
+    have hf := fourLoop_spec m c.1 c.2.1 c.2.2 hc.idx
+    generalize (Civil.fourLoop c.1 c.2.1 c.2.2).val = f at hf
+    have hy := yearLoop_spec m f.1 f.2.1
+    generalize (Civil.yearLoop m f.1 f.2.1).val = r at hy
+    exact ⟨by rw [hy.day, hf.day, hc.day], by have := hc.lo; have := hf.lo; have := hy.lo; omega,
+      by have := hc.hi; have := hf.hi; have := hy.hi; omega,
+      fun h => hy.pos (hf.pos (hc.pos h)), hy.top,
+      by have := hc.le; have := hf.le; have := hy.le; omega⟩
+  · right; exact ⟨by omega, rfl⟩
+
+theorem monthChunk_spec (ey5 m d3 : Int) (h1 : 1 ≤ m) (h2 : m ≤ 12) (hd : 1 ≤ d3) :
+    MonthSpec ey5 m d3 (monthChunk ey5 m d3).val := by
+  unfold monthChunk
+  split
+  · exact monthLoop_spec ey5 m d3 h1 h2
+  · have := daysInMonth_pos ey5 m
+    exact ⟨rfl, h1, h2, id, by simp only [Ck.pure_val]; omega, Int.le_refl _, by simp⟩
+
+theorem daysInMonth_add_400_mul (y q m : Int) : daysInMonth (y + 400 * q) m = daysInMonth y m := by
+  simp only [daysInMonth, isLeap_add_400_mul]
+
+end NDay
+
+open NDay in
+/-- `n_day` for a month in range: the result is a valid date, exactly `cd` days after the
+(possibly out-of-range) day `d` of month `m` of year `y`; the time of day is passed through -/
+theorem nDay_spec (y m d cd hh mm ss : Int) (h1 : 1 ≤ m) (h2 : m ≤ 12) :
+    ValidDate (Civil.nDay y m d cd hh mm ss).val.y (Civil.nDay y m d cd hh mm ss).val.m
+      (Civil.nDay y m d cd hh mm ss).val.d ∧
+    dayNum (Civil.nDay y m d cd hh mm ss).val.y (Civil.nDay y m d cd hh mm ss).val.m
+      (Civil.nDay y m d cd hh mm ss).val.d = dayNum y m d + cd ∧
+    (Civil.nDay y m d cd hh mm ss).val.hh = hh ∧ (Civil.nDay y m d cd hh mm ss).val.mm = mm ∧
+    (Civil.nDay y m d cd hh mm ss).val.ss = ss := by
+  rw [nDay_eq]
+  simp only [Ck.bindv, chk64_val, Ck.pure_val, redCd_val, and_true]
+  -- names for the intermediate values
+  have hy := cdiv_cmod y 400
+  have hd := cdiv_cmod d 146097
+  have hdr : -146097 < cmod d 146097 ∧ cmod d 146097 < 146097 := by
+    rw [cmod_pos_lit _ 146097 (by decide)]; omega
+  generalize cmod y 400 = e0 at *
+  generalize cdiv y 400 = k at *
+  generalize hey3 : e0 + 400 * (cd / 146097) + cdiv d 146097 * 400 = ey3
+  generalize hd1 : cmod d 146097 + cd % 146097 = d1
+  have hq := redD_spec ey3 d1 m (by omega) (by omega)
+  generalize (redD ey3 d1 m).val = q at hq ⊢
+  obtain ⟨hq1, hq2, hq3, hq4, hq5⟩ := hq
+  have hr : dayNum (yearChunks q.1 q.2 m).val.1 m (yearChunks q.1 q.2 m).val.2 = dayNum q.1 m q.2 ∧
+      1 ≤ (yearChunks q.1 q.2 m).val.2 := by
+    rcases yearChunks_spec q.1 q.2 m with h | ⟨_, h⟩
+    · exact ⟨h.day, h.pos (by omega)⟩
+    · rw [h]; exact ⟨rfl, hq2⟩
+  generalize (yearChunks q.1 q.2 m).val = r at hr ⊢
+  have hs := monthChunk_spec r.1 m r.2 h1 h2 hr.2
+  generalize (monthChunk r.1 m r.2).val = s at hs ⊢
+  have hyear : y + (s.1 - e0) = s.1 + 400 * k := by omega
+  rw [hyear]
+  refine ⟨⟨hs.m_lo, hs.m_hi, hs.pos (by omega), ?_⟩, ?_⟩
+  · rw [daysInMonth_add_400_mul]; exact hs.top
+  · rw [dayNum_add_400_mul, hs.day, hr.1, hq1, ← hey3]
+    have e1 : e0 + 400 * (cd / 146097) + cdiv d 146097 * 400 =
+        e0 + 400 * (cd / 146097 + cdiv d 146097) := by omega
+    have e2 : y = e0 + 400 * k := by omega
+    rw [e1, e2, dayNum_add_400_mul, dayNum_add_400_mul, dayNum_eq_first e0 m d1,
+      dayNum_eq_first e0 m d]
+    omega
+
+/-! ## `n_mon`, `n_hour`, `n_min`: each reduces to the next with floor-division carries -/
+
+theorem nDay_val_congr {y m y' m' d cd hh mm ss : Int} (h1 : y = y') (h2 : m = m') :
+    (Civil.nDay y m d cd hh mm ss).val = (Civil.nDay y' m' d cd hh mm ss).val := by
+  subst h1 h2; rfl
+
+theorem nMon_val (y m d cd hh mm ss : Int) :
+    (Civil.nMon y m d cd hh mm ss).val =
+      (Civil.nDay (y + (m - 1) / 12) ((m - 1) % 12 + 1) d cd hh mm ss).val := by
+  unfold Civil.nMon
+  by_cases hm : m = 12
+  · subst hm; simp
+  · have hne : (m != 12) = true := by simpa using hm
+    simp only [hne, if_true, Ck.bindv, chk64_val]
+    have h1 := cdiv_pos_lit m 12 (by decide)
+    have h2 := cmod_pos_lit m 12 (by decide)
+    split
+    · next h =>
+      simp only [Ck.bindv, chk64_val]
+      exact nDay_val_congr (by omega) (by omega)
+    · next h =>
+      exact nDay_val_congr (by omega) (by omega)
+
+theorem nMon_val_congr {y m d a b c e a' b' c' e' : Int} (h1 : a = a') (h2 : b = b') (h3 : c = c')
+    (h4 : e = e') : (Civil.nMon y m d a b c e).val = (Civil.nMon y m d a' b' c' e').val := by
+  subst h1 h2 h3 h4; rfl
+
+theorem nHour_val (y m d cd hh mm ss : Int) :
+    (Civil.nHour y m d cd hh mm ss).val =
+      (Civil.nMon y m d (cd + hh / 24) (hh % 24) mm ss).val := by
+  unfold Civil.nHour
+  have hc := carry24 hh
+  simp only [Ck.bindv, chk64_val]
+  split
+  · next h => simp only [Ck.bindv, chk64_val]; have := hc.1 h; exact nMon_val_congr (by omega) (by omega) (by omega) (by omega)
+  · next h => have := hc.2 h; exact nMon_val_congr (by omega) (by omega) (by omega) (by omega)
+
+theorem nMin_val (y m d hh ch mm ss : Int) :
+    (Civil.nMin y m d hh ch mm ss).val =
+      (Civil.nMon y m d ((hh + ch + mm / 60) / 24) ((hh + ch + mm / 60) % 24) (mm % 60) ss).val := by
+  unfold Civil.nMin
+  have hc := carry60 mm
+  simp only [Ck.bindv, chk64_val, nHour_val]
+  split
+  · next h =>
+    simp only [Ck.bindv, chk64_val, Ck.pure_val]
+    have := hc.1 h
+    have := split24_div hh (ch + cdiv mm 60 - 1)
+    have := split24_mod hh (ch + cdiv mm 60 - 1)
+    exact nMon_val_congr (by omega) (by omega) (by omega) (by omega)
+  · next h =>
+    simp only [Ck.pure_val]
+    have := hc.2 h
+    have := split24_div hh (ch + cdiv mm 60)
+    have := split24_mod hh (ch + cdiv mm 60)
+    exact nMon_val_congr (by omega) (by omega) (by omega) (by omega)
+
+theorem nSec_val (y m d hh mm ss : Int) :
+    (Civil.nSec y m d hh mm ss).val =
+      if (0 ≤ ss ∧ ss < 60) ∧ (0 ≤ mm ∧ mm < 60) ∧ (0 ≤ hh ∧ hh < 24) ∧
+          (1 ≤ d ∧ d ≤ 28 ∧ 1 ≤ m ∧ m ≤ 12) then ⟨y, m, d, hh, mm, ss⟩
+      else (Civil.nMon y m d ((hh + (mm + ss / 60) / 60) / 24) ((hh + (mm + ss / 60) / 60) % 24)
+        ((mm + ss / 60) % 60) (ss % 60)).val := by
+  unfold Civil.nSec
+  by_cases hs : 0 ≤ ss ∧ ss < 60
+  · simp only [hs, and_self, if_true, true_and]
+    by_cases hmm : 0 ≤ mm ∧ mm < 60
+    · simp only [hmm, and_self, if_true, true_and]
+      by_cases hh' : 0 ≤ hh ∧ hh < 24
+      · simp only [hh', and_self, if_true, true_and]
+        split
+        · rfl
+        · exact nMon_val_congr (by omega) (by omega) (by omega) (by omega)
+      · simp only [hh', if_false, false_and]
+        rw [nHour_val]
+        have := split24_div hh 0
+        have := split24_mod hh 0
+        have : cdiv 0 24 = 0 := by decide
+        have : cmod 0 24 = 0 := by decide
+        have := cmod_pos_lit hh 24 (by decide)
+        exact nMon_val_congr (by omega) (by omega) (by omega) (by omega)
+    · simp only [hmm, if_false, false_and]
+      rw [nMin_val]
+      have := split60_div mm 0
+      have := split60_mod mm 0
+      have : cdiv 0 60 = 0 := by decide
+      have : cmod 0 60 = 0 := by decide
+      have := cmod_pos_lit mm 60 (by decide)
+      exact nMon_val_congr (by omega) (by omega) (by omega) (by omega)
+  · simp only [hs, if_false, false_and]
+    have hc := carry60 ss
+    simp only [Ck.bindv, chk64_val, nMin_val]
+    split
+    · next h =>
+      simp only [Ck.bindv, chk64_val, Ck.pure_val]
+      have := hc.1 h
+      have := split60_div mm (cdiv ss 60 - 1)
+      have := split60_mod mm (cdiv ss 60 - 1)
+      exact nMon_val_congr (by omega) (by omega) (by omega) (by omega)
+    · next h =>
+      simp only [Ck.pure_val]
+      have := hc.2 h
+      have := split60_div mm (cdiv ss 60)
+      have := split60_mod mm (cdiv ss 60)
+      exact nMon_val_congr (by omega) (by omega) (by omega) (by omega)
+
+/-! ## normalisation specs in a form reusable by `step` -/
+
+/-- `r` is a valid date with day number `day`, and carries the given time of day -/
+structure NormSpec (r : Fields) (day hh mm ss : Int) : Prop where
+  date : ValidDate r.y r.m r.d
+  day : dayNum r.y r.m r.d = day
+  hh : r.hh = hh
+  mm : r.mm = mm
+  ss : r.ss = ss
+
+theorem NormSpec.valid {r : Fields} {day hh mm ss : Int} (h : NormSpec r day hh mm ss)
+    (h1 : 0 ≤ hh ∧ hh ≤ 23) (h2 : 0 ≤ mm ∧ mm ≤ 59) (h3 : 0 ≤ ss ∧ ss ≤ 59) : Valid r := by
+  obtain ⟨⟨a, b, c, e⟩, _, hh', mm', ss'⟩ := h
+  refine ⟨a, b, c, e, ?_, ?_, ?_, ?_, ?_, ?_⟩ <;> omega
+
+theorem NormSpec.secNum {r : Fields} {day hh mm ss : Int} (h : NormSpec r day hh mm ss) :
+    secNum r = day * 86400 + hh * 3600 + mm * 60 + ss := by
+  simp only [Spec.secNum, h.day, h.hh, h.mm, h.ss]
+
+/-- day number of "day `d` of month `m` of year `y`" with the month carried into the year
+(`d` may be out of range: `dayNum` is linear in the day) -/
+def monthDay (y m d : Int) : Int := dayNum (y + (m - 1) / 12) ((m - 1) % 12 + 1) d
+
+theorem monthDay_of_range (y m d : Int) (h1 : 1 ≤ m) (h2 : m ≤ 12) : monthDay y m d = dayNum y m d := by
+  unfold monthDay
+  rw [show (m - 1) / 12 = 0 by omega, show (m - 1) % 12 + 1 = m by omega, Int.add_zero]
+
+theorem monthDay_linear (y m d : Int) : monthDay y m d = monthDay y m 1 + (d - 1) :=
+  dayNum_eq_first _ _ _
+
+theorem nDay_norm (y m d cd hh mm ss : Int) (h1 : 1 ≤ m) (h2 : m ≤ 12) :
+    NormSpec (Civil.nDay y m d cd hh mm ss).val (dayNum y m d + cd) hh mm ss := by
+  obtain ⟨a, b, c, e, f⟩ := nDay_spec y m d cd hh mm ss h1 h2
+  exact ⟨a, b, c, e, f⟩
+
+theorem nMon_norm (y m d cd hh mm ss : Int) :
+    NormSpec (Civil.nMon y m d cd hh mm ss).val (monthDay y m d + cd) hh mm ss := by
+  rw [nMon_val]
+  exact nDay_norm _ _ _ _ _ _ _ (by omega) (by omega)
+
+theorem nHour_norm (y m d cd hh mm ss : Int) :
+    NormSpec (Civil.nHour y m d cd hh mm ss).val (monthDay y m d + (cd + hh / 24)) (hh % 24) mm ss := by
+  rw [nHour_val]; exact nMon_norm _ _ _ _ _ _ _
+
+theorem nMin_norm (y m d hh ch mm ss : Int) :
+    NormSpec (Civil.nMin y m d hh ch mm ss).val (monthDay y m d + (hh + ch + mm / 60) / 24)
+      ((hh + ch + mm / 60) % 24) (mm % 60) ss := by
+  rw [nMin_val]; exact nMon_norm _ _ _ _ _ _ _
+
+theorem nSec_norm (y m d hh mm ss : Int) :
+    NormSpec (Civil.nSec y m d hh mm ss).val (monthDay y m d + (hh + (mm + ss / 60) / 60) / 24)
+      ((hh + (mm + ss / 60) / 60) % 24) ((mm + ss / 60) % 60) (ss % 60) := by
+  rw [nSec_val]
+  split
+  · next h =>
+    obtain ⟨hs, hm, hh', hd1, hd2, hm1, hm2⟩ := h
+    have := daysInMonth_pos y m
+    refine ⟨⟨hm1, hm2, hd1, by show d ≤ daysInMonth y m; omega⟩, ?_, ?_, ?_, ?_⟩
+    · show dayNum y m d = _
+      rw [monthDay_of_range y m d hm1 hm2]; omega
+    · show hh = _; omega
+    · show mm = _; omega
+    · show ss = _; omega
+  · exact nMon_norm _ _ _ _ _ _ _
+
+theorem unnormSec_eq (y m d hh mm ss : Int) :
+    unnormSec y m d hh mm ss = monthDay y m d * 86400 + hh * 3600 + mm * 60 + ss := by
+  rw [monthDay_linear]; rfl
+
+/-! ## alignment -/
+
+theorem align_valid (t : Tag) (f : Fields) (h : Valid f) : Valid (Civil.align t f) := by
+  obtain ⟨h1, h2, h3, h4, h5, h6, h7, h8, h9, h10⟩ := h
+  have p1 := daysInMonth_pos f.y f.m
+  have p2 := daysInMonth_pos f.y 1
+  cases t <;> simp only [Civil.align, Valid] <;> omega
+
+theorem align_aligned (t : Tag) (f : Fields) : Aligned t (Civil.align t f) := by
+  cases t <;> simp [Civil.align, Aligned]
+
+theorem align_sameAbove (t : Tag) (f : Fields) : SameAbove t (Civil.align t f) f := by
+  cases t <;> simp [Civil.align, SameAbove]
+
+theorem align_align (t u : Tag) (f : Fields) :
+    SameAbove t (Civil.align u (Civil.align t f)) (Civil.align u f) := by
+  cases t <;> cases u <;> simp [Civil.align, SameAbove]
+
+/-- `align t f` is not lexicographically after `f` -/
+theorem align_not_after (t : Tag) (f : Fields) (h : Valid f) : ¬ FieldsLex f (Civil.align t f) := by
+  obtain ⟨h1, h2, h3, h4, h5, h6, h7, h8, h9, h10⟩ := h
+  cases t <;> simp only [Civil.align, FieldsLex, DateLex] <;> omega
+
+/-- an aligned value after `align t f` is after `f` -/
+theorem lex_of_align_lex (t : Tag) (f g : Fields) (hf : Valid f) (hg : Valid g) (ha : Aligned t g)
+    (h : FieldsLex (Civil.align t f) g) : FieldsLex f g := by
+  obtain ⟨h1, h2, h3, h4, h5, h6, h7, h8, h9, h10⟩ := hf
+  obtain ⟨g1, g2, g3, g4, g5, g6, g7, g8, g9, g10⟩ := hg
+  cases t <;> simp only [Civil.align, FieldsLex, DateLex, Aligned] at h ha ⊢ <;> omega
+
+theorem align_le (t : Tag) (f : Fields) (h : Valid f) : secNum (Civil.align t f) ≤ secNum f := by
+  have hv := align_valid t f h
+  have := align_not_after t f h
+  rw [← secNum_lt_iff_lex h hv] at this
+  omega
+
+theorem align_greatest (t : Tag) (f g : Fields) (hf : Valid f) (hg : Valid g) (ha : Aligned t g)
+    (hle : secNum g ≤ secNum f) : secNum g ≤ secNum (Civil.align t f) := by
+  have hv := align_valid t f hf
+  by_cases hlt : secNum (Civil.align t f) < secNum g
+  · have h1 := (secNum_lt_iff_lex hv hg).mp hlt
+    have h2 := lex_of_align_lex t f g hf hg ha h1
+    have := secNum_lt_of_lex hf hg h2
+    omega
+  · omega
+/-! ## no flag is raised -/
+
+open NDay
+
+namespace NDay
+
+theorem redCd_ok (ey1 cd1 : Int) (h1 : i64min + 400 ≤ ey1) (_h2 : ey1 ≤ i64max)
+    (h3 : -146097 ≤ cd1) (h4 : cd1 ≤ 146097) : (redCd ey1 cd1).ok := by
+  unfold redCd
+  simp only [i64min, i64max] at *
+  split
+  · simp only [Ck.bind_ok, chk64_ok, Ck.pure_ok, and_true, inI64, i64min, i64max]; omega
+  · exact Ck.pure_ok _
+
+theorem redD_ok (ey3 d1 m : Int) (h1 : i64min + 400 ≤ ey3) (h2 : ey3 ≤ i64max - 400)
+    (h3 : -146097 < d1) (h4 : d1 ≤ 2 * 146097) : (redD ey3 d1 m).ok := by
+  unfold redD
+  have := lix_range m
+  have hc := daysPerYear_val (ey3 - 1) m
+  have := daysInYear_cases (ey3 - 1 + lix(m))
+  simp only [i64min, i64max] at *
+  split
+  · split
+    · simp only [Ck.bind_ok, chk64_ok, Ck.pure_ok, and_true, inI64, i64min, i64max]; omega
+    · exact Ck.pure_ok _
+  · split
+    · simp only [Ck.bind_ok, chk64_ok, chk64_val, Ck.pure_ok, and_true, daysPerYear_ok, inI64,
+        i64min, i64max]
+      omega
+    · simp only [Ck.bind_ok, chk64_ok, Ck.pure_ok, and_true, inI64, i64min, i64max]; omega
+
+theorem yearChunks_ok (ey4 d2 m : Int) (h1 : i64min ≤ ey4) (h2 : 1 ≤ d2) (h3 : d2 ≤ i64max)
+    (h4 : ey4 + d2 ≤ i64max) : (yearChunks ey4 d2 m).ok := by
+  unfold yearChunks
+  split
+  · have hl := lix_range m
+    have hc := centuryLoop_spec m ey4 d2 _ (yearIndex_val ey4 m)
+    have hco := centuryLoop_ok ey4 d2 (Civil.yearIndex ey4 m).val h1 (by omega) h3 h4
+    simp only [Ck.bind_ok, yearIndex_ok]
+    generalize (Civil.centuryLoop ey4 d2 (Civil.yearIndex ey4 m).val).val = c at hc ⊢
+    have hf := fourLoop_spec m c.1 c.2.1 c.2.2 hc.idx
+    have hcl := hc.lo; have hch := hc.hi; have hcp := hc.pos (by omega); have hcle := hc.le
+    have hfo := fourLoop_ok c.1 c.2.1 c.2.2 (by omega) hcp (by omega) (by omega)
+    generalize (Civil.fourLoop c.1 c.2.1 c.2.2).val = f at hf ⊢
+    have hfl := hf.lo; have hfh := hf.hi; have hfp := hf.pos hcp; have hfle := hf.le
+    have hyo := yearLoop_ok m f.1 f.2.1 (by omega) hfp (by omega) (by omega)
+    refine ⟨?_, hco, hfo, hyo⟩
+    simp only [inI64, i64min, i64max] at *; omega
+  · exact Ck.pure_ok _
+
+theorem monthChunk_ok (ey5 m d3 : Int) (hm1 : 1 ≤ m) (hm2 : m ≤ 12) (h1 : i64min ≤ ey5)
+    (_h2 : 1 ≤ d3) (h3 : d3 ≤ i64max) (h4 : ey5 + d3 ≤ i64max) : (monthChunk ey5 m d3).ok := by
+  unfold monthChunk
+  split
+  · exact monthLoop_ok ey5 m d3 hm1 hm2 h1 (by omega) h3 h4
+  · exact Ck.pure_ok _
+
+end NDay
+
+/-- `n_day` raises no flag when its 64-bit inputs and its resulting year are representable -/
+theorem nDay_ok (y m d cd hh mm ss : Int) (h1 : 1 ≤ m) (h2 : m ≤ 12) (_hy : inI64 y) (hd : inI64 d)
+    (hcd : inI64 cd) (hres : inI64 (Civil.nDay y m d cd hh mm ss).val.y) :
+    (Civil.nDay y m d cd hh mm ss).ok := by
+  rw [nDay_eq] at hres ⊢
+  simp only [Ck.bindv, chk64_val, Ck.pure_val, redCd_val] at hres
+  simp only [Ck.bind_ok, chk64_ok, Ck.pure_ok, chk64_val, redCd_val, and_true]
+  have hyr : -400 < cmod y 400 ∧ cmod y 400 < 400 := by
+    rw [cmod_pos_lit _ 400 (by decide)]; omega
+  have hdr : -146097 < cmod d 146097 ∧ cmod d 146097 < 146097 := by
+    rw [cmod_pos_lit _ 146097 (by decide)]; omega
+  have hcr : -146097 < cmod cd 146097 ∧ cmod cd 146097 < 146097 := by
+    rw [cmod_pos_lit _ 146097 (by decide)]; omega
+  have hdq := cdiv_pos_lit d 146097 (by decide)
+  have hcq := cdiv_pos_lit cd 146097 (by decide)
+  simp only [inI64, i64min, i64max] at hd hcd
+  generalize cmod y 400 = e0 at *
+  generalize cdiv d 146097 = dq at *
+  generalize cdiv cd 146097 = cq at *
+  have hro := redCd_ok (e0 + cq * 400) (cmod cd 146097)
+    (by simp only [i64min]; omega) (by simp only [i64max]; omega) (by omega) (by omega)
+  generalize hey3 : e0 + 400 * (cd / 146097) + dq * 400 = ey3 at *
+  generalize hd1 : cmod d 146097 + cd % 146097 = d1 at *
+  have hey3b : -60000000000000000 ≤ ey3 ∧ ey3 ≤ 60000000000000000 := by omega
+  have hq := redD_spec ey3 d1 m (by omega) (by omega)
+  have hqo := redD_ok ey3 d1 m (by simp only [i64min]; omega) (by simp only [i64max]; omega)
+    (by omega) (by omega)
+  generalize (redD ey3 d1 m).val = q at *
+  obtain ⟨-, hq2, hq3, hq4, hq5⟩ := hq
+  have hr : (yearChunks q.1 q.2 m).val.1 + (yearChunks q.1 q.2 m).val.2 ≤ q.1 + q.2 ∧
+      1 ≤ (yearChunks q.1 q.2 m).val.2 ∧ q.1 ≤ (yearChunks q.1 q.2 m).val.1 := by
+    rcases yearChunks_spec q.1 q.2 m with h | ⟨_, h⟩
+    · exact ⟨h.hi, h.pos (by omega), h.lo⟩
+    · rw [h]; exact ⟨Int.le_refl _, hq2, Int.le_refl _⟩
+  have hyo := yearChunks_ok q.1 q.2 m (by simp only [i64min]; omega) hq2
+    (by simp only [i64max]; omega) (by simp only [i64max]; omega)
+  generalize (yearChunks q.1 q.2 m).val = r at *
+  have hs := monthChunk_spec r.1 m r.2 h1 h2 hr.2.1
+  have hmo := monthChunk_ok r.1 m r.2 h1 h2 (by simp only [i64min]; omega) hr.2.1
+    (by simp only [i64max]; omega) (by simp only [i64max]; omega)
+  generalize (monthChunk r.1 m r.2).val = s at *
+  have hs1 := hs.lo; have hs2 := hs.hi; have hs3 := hs.m_lo; have hs4 := hs.pos (by omega)
+  refine ⟨?_, ?_, hro, ?_, ?_, ?_, hqo, hyo, hmo, ?_, hres⟩ <;>
+    simp only [inI64, i64min, i64max] <;> omega
+
+/-- `n_mon` raises no flag when, in addition, the two years it forms on the way fit -/
+theorem nMon_ok (y m d cd hh mm ss : Int) (hy : inI64 y) (hd : inI64 d) (hcd : inI64 cd)
+    (hy1 : m ≠ 12 → inI64 (y + Int.tdiv m 12)) (hy2 : inI64 (y + (m - 1) / 12))
+    (hres : inI64 (Civil.nMon y m d cd hh mm ss).val.y) :
+    (Civil.nMon y m d cd hh mm ss).ok := by
+  unfold Civil.nMon at hres ⊢
+  by_cases hm : m = 12
+  · subst hm
+    simp only [bne_self_eq_false, Bool.false_eq_true, if_false] at hres ⊢
+    exact nDay_ok y 12 d cd hh mm ss (by omega) (by omega) hy hd hcd hres
+  · have hne : (m != 12) = true := by simpa using hm
+    have hy1 := hy1 hm
+    have h1 := cdiv_pos_lit m 12 (by decide)
+    have h2 := cmod_pos_lit m 12 (by decide)
+    simp only [hne, if_true, Ck.bindv, chk64_val] at hres
+    simp only [hne, if_true, Ck.bind_ok, chk64_ok, chk64_val]
+    refine ⟨hy1, ?_⟩
+    by_cases h : cmod m 12 ≤ 0
+    · simp only [h, if_true, Ck.bindv, chk64_val] at hres
+      simp only [h, if_true, Ck.bind_ok, chk64_ok, chk64_val]
+      have e : y + cdiv m 12 - 1 = y + (m - 1) / 12 := by omega
+      refine ⟨by rw [e]; exact hy2, ?_, ?_⟩
+      · simp only [inI64, i64min, i64max]; omega
+      · exact nDay_ok _ _ d cd hh mm ss (by omega) (by omega) (by rw [e]; exact hy2) hd hcd hres
+    · simp only [h, if_false] at hres ⊢
+      exact nDay_ok _ _ d cd hh mm ss (by omega) (by omega) hy1 hd hcd hres
+
+theorem nHour_ok (y m d cd hh mm ss : Int) (hy : inI64 y) (hd : inI64 d)
+    (hcd : -4611686018427387904 ≤ cd ∧ cd ≤ 4611686018427387904) (hhh : inI64 hh)
+    (hy1 : m ≠ 12 → inI64 (y + Int.tdiv m 12)) (hy2 : inI64 (y + (m - 1) / 12))
+    (hres : inI64 (Civil.nHour y m d cd hh mm ss).val.y) :
+    (Civil.nHour y m d cd hh mm ss).ok := by
+  unfold Civil.nHour at hres ⊢
+  have h1 := cdiv_pos_lit hh 24 (by decide)
+  have h2 := cmod_pos_lit hh 24 (by decide)
+  simp only [inI64, i64min, i64max] at hhh
+  simp only [Ck.bindv, chk64_val] at hres
+  simp only [Ck.bind_ok, chk64_ok, chk64_val]
+  refine ⟨by simp only [inI64, i64min, i64max]; omega, ?_⟩
+  by_cases h : cmod hh 24 < 0
+  · simp only [h, if_true, Ck.bindv, chk64_val] at hres
+    simp only [h, if_true, Ck.bind_ok, chk64_ok, chk64_val]
+    refine ⟨by simp only [inI64, i64min, i64max]; omega, by simp only [inI64, i64min, i64max]; omega,
+      nMon_ok y m d _ _ mm ss hy hd (by simp only [inI64, i64min, i64max]; omega) hy1 hy2 hres⟩
+  · simp only [h, if_false] at hres ⊢
+    exact nMon_ok y m d _ _ mm ss hy hd (by simp only [inI64, i64min, i64max]; omega) hy1 hy2 hres
+
+/-- the borrow step shared by `n_sec` and `n_min`: `(q, r)` with `-60 < r < 60` becomes floor form -/
+def borrow60 (q r : Int) : Ck (Int × Int) :=
+  if r < 0 then do
+    let c ← chk64 (q - 1); let s ← chk64 (r + 60); pure (c, s)
+  else pure (q, r)
+
+theorem nSec_slow_eq (y m d hh mm ss : Int) (hs : ¬ (0 ≤ ss ∧ ss < 60)) :
+    Civil.nSec y m d hh mm ss = (do
+      let p ← borrow60 (cdiv ss 60) (cmod ss 60)
+      let a ← chk64 (cdiv mm 60 + cdiv p.1 60)
+      let b ← chk64 (cmod mm 60 + cmod p.1 60)
+      Civil.nMin y m d hh a b p.2) := by
+  unfold Civil.nSec
+  rw [if_neg hs]
+  rfl
+
+theorem nMin_eq (y m d hh ch mm ss : Int) :
+    Civil.nMin y m d hh ch mm ss = (do
+      let ch1 ← chk64 (ch + cdiv mm 60)
+      let p ← borrow60 ch1 (cmod mm 60)
+      let a ← chk64 (cdiv hh 24 + cdiv p.1 24)
+      let b ← chk64 (cmod hh 24 + cmod p.1 24)
+      Civil.nHour y m d a b p.2 ss) := rfl
+
+theorem borrow60_val (c x : Int) :
+    (borrow60 (c + cdiv x 60) (cmod x 60)).val = (c + x / 60, x % 60) := by
+  have hc := carry60 x
+  unfold borrow60
+  split
+  · next h => have := hc.1 h; simp only [Ck.bindv, chk64_val, Ck.pure_val, Prod.mk.injEq]; omega
+  · next h => have := hc.2 h; simp only [Ck.pure_val, Prod.mk.injEq]; omega
+
+theorem borrow60_ok (q r : Int) (h1 : i64min < q) (h2 : q ≤ i64max) (h3 : -60 < r) (h4 : r < 60) :
+    (borrow60 q r).ok := by
+  unfold borrow60
+  simp only [i64min, i64max] at *
+  split
+  · simp only [Ck.bind_ok, chk64_ok, Ck.pure_ok, and_true, inI64, i64min, i64max]; omega
+  · exact Ck.pure_ok _
+
+theorem nMin_ok (y m d hh ch mm ss : Int) (hy : inI64 y) (hd : inI64 d) (hhh : inI64 hh)
+    (hch : -2305843009213693952 ≤ ch ∧ ch ≤ 2305843009213693952) (hmm : inI64 mm)
+    (hy1 : m ≠ 12 → inI64 (y + Int.tdiv m 12)) (hy2 : inI64 (y + (m - 1) / 12))
+    (hres : inI64 (Civil.nMin y m d hh ch mm ss).val.y) :
+    (Civil.nMin y m d hh ch mm ss).ok := by
+  rw [nMin_eq] at hres ⊢
+  simp only [Ck.bindv, chk64_val, borrow60_val] at hres
+  simp only [Ck.bind_ok, chk64_ok, chk64_val, borrow60_val]
+  simp only [inI64, i64min, i64max] at hhh hmm
+  have h1 := cdiv_pos_lit mm 60 (by decide)
+  have h2 := cmod_pos_lit mm 60 (by decide)
+  have h3 := cdiv_pos_lit hh 24 (by decide)
+  have h4 := cmod_pos_lit hh 24 (by decide)
+  have h5 := cdiv_pos_lit (ch + mm / 60) 24 (by decide)
+  have h6 := cmod_pos_lit (ch + mm / 60) 24 (by decide)
+  refine ⟨by simp only [inI64, i64min, i64max]; omega,
+    borrow60_ok _ _ (by simp only [i64min]; omega) (by simp only [i64max]; omega) (by omega) (by omega),
+    by simp only [inI64, i64min, i64max]; omega, by simp only [inI64, i64min, i64max]; omega,
+    nHour_ok y m d _ _ _ ss hy hd (by omega) (by simp only [inI64, i64min, i64max]; omega) hy1 hy2 hres⟩
+
+
+theorem nSec_ok (y m d hh mm ss : Int) (hy : inI64 y) (hd : inI64 d) (hhh : inI64 hh)
+    (hmm : inI64 mm) (hss : inI64 ss)
+    (hy1 : m ≠ 12 → inI64 (y + Int.tdiv m 12)) (hy2 : inI64 (y + (m - 1) / 12))
+    (hres : inI64 (Civil.nSec y m d hh mm ss).val.y) :
+    (Civil.nSec y m d hh mm ss).ok := by
+  by_cases hs : 0 ≤ ss ∧ ss < 60
+  · unfold Civil.nSec at hres ⊢
+    simp only [hs, and_self, if_true] at hres ⊢
+    by_cases hm : 0 ≤ mm ∧ mm < 60
+    · simp only [hm, and_self, if_true] at hres ⊢
+      by_cases hh' : 0 ≤ hh ∧ hh < 24
+      · simp only [hh', and_self, if_true] at hres ⊢
+        by_cases hf : 1 ≤ d ∧ d ≤ 28 ∧ 1 ≤ m ∧ m ≤ 12
+        · simp only [hf, and_self, if_true]; exact Ck.pure_ok _
+        · simp only [hf, if_false] at hres ⊢
+          exact nMon_ok y m d 0 hh mm ss hy hd (by decide) hy1 hy2 hres
+      · simp only [hh', if_false] at hres ⊢
+        simp only [inI64, i64min, i64max] at hhh
+        have h3 := cdiv_pos_lit hh 24 (by decide)
+        have h4 := cmod_pos_lit hh 24 (by decide)
+        exact nHour_ok y m d _ _ mm ss hy hd (by omega)
+          (by simp only [inI64, i64min, i64max]; omega) hy1 hy2 hres
+    · simp only [hm, if_false] at hres ⊢
+      simp only [inI64, i64min, i64max] at hmm
+      have h3 := cdiv_pos_lit mm 60 (by decide)
+      have h4 := cmod_pos_lit mm 60 (by decide)
+      exact nMin_ok y m d hh _ _ ss hy hd hhh (by omega)
+        (by simp only [inI64, i64min, i64max]; omega) hy1 hy2 hres
+  · rw [nSec_slow_eq _ _ _ _ _ _ hs] at hres ⊢
+    have hb := borrow60_val 0 ss
+    simp only [Int.zero_add] at hb
+    simp only [Ck.bindv, chk64_val, hb] at hres
+    simp only [Ck.bind_ok, chk64_ok, chk64_val, hb]
+    simp only [inI64, i64min, i64max] at hmm hss
+    have h1 := cdiv_pos_lit ss 60 (by decide)
+    have h2 := cmod_pos_lit ss 60 (by decide)
+    have h3 := cdiv_pos_lit mm 60 (by decide)
+    have h4 := cmod_pos_lit mm 60 (by decide)
+    have h5 := cdiv_pos_lit (ss / 60) 60 (by decide)
+    have h6 := cmod_pos_lit (ss / 60) 60 (by decide)
+    refine ⟨borrow60_ok _ _ (by simp only [i64min]; omega) (by simp only [i64max]; omega)
+      (by omega) (by omega), by simp only [inI64, i64min, i64max]; omega,
+      by simp only [inI64, i64min, i64max]; omega,
+      nMin_ok y m d hh _ _ _ hy hd hhh (by omega) (by simp only [inI64, i64min, i64max]; omega)
+        hy1 hy2 hres⟩
+
+end Cctz
